@@ -85,3 +85,21 @@ func symObserve(tag string, v interface{}) {
 		vhObserved = append(vhObserved, tag+"=?")
 	}
 }
+
+// symStringIn: n arbitrary bytes, each from the given alphabet.
+func symStringIn(n int, alphabet string) string {
+	b := make([]byte, n)
+	for i := range b {
+		b[i] = byte(vhNext())
+		ok := false
+		for j := 0; j < len(alphabet); j++ {
+			if alphabet[j] == b[i] {
+				ok = true
+			}
+		}
+		if !ok {
+			panic(vhStop{"byte outside alphabet"})
+		}
+	}
+	return string(b)
+}
